@@ -38,6 +38,15 @@ def ack_gate():
     return gen_gate("AckCheck", ACK_THEOREMS, 3)
 
 
+# Gen/ExpiryCheck.v (C04): the expiry branch of the actor's select! is unconditional and its poll only waits;
+# instance of Proofs/ActorLoopP.v
+EXPIRY_THEOREMS = ["deltio_expiry_branch_unconditional", "deltio_expiry_poll_only_waits", "deltio_idle_nothing_expired"]
+
+
+def expiry_gate():
+    return gen_gate("ExpiryCheck", EXPIRY_THEOREMS, 3)
+
+
 def push_gate():
     return gen_gate("PushCheck", PUSH_THEOREMS, 3)
 
